@@ -681,9 +681,16 @@ def gen_op(rng, h: History, risky: float) -> list:
         return t
 
     nreq, ncont = len(h.reqs), len(h.conts)
+    # vocabulary first: a history without types/definitions cannot reach the typed branches
+    setup = [["new_type", text(), ""], ["new_dt", text()], ["new_edt", text(), [[text(), ""], [text(), "d"]]],
+             ["new_def", 0, False, 0, text(), "", False], ["new_def", 0, True, 0, text(), "", rng.random() < 0.5],
+             ["new_type", text(), "d"]]
+    n_vocab = len(h.types) + len(h.dts) + len(h.edts) + len(h.defs)
+    if n_vocab < len(setup) and rng.random() < 0.7:
+        return setup[n_vocab]
     choices = ["add_req"] * 5 + ["add_folder"] * 2
     if nreq:
-        choices += ["add_attr"] * 6 + ["set_field"] * 2 + ["set_type"] * 2 + ["move_req"] * 2 + ["del_req", "del_attr"]
+        choices += ["add_attr"] * 7 + ["set_field"] * 2 + ["set_type"] * 4 + ["move_req"] * 2 + ["del_req", "del_attr"]
     if ncont > 1:
         choices += ["move_folder", "del_folder"]
     choices += ["new_type", "new_def", "new_def", "new_dt", "new_edt", "new_mtype", "mod_type", "mod_field"]
@@ -998,19 +1005,25 @@ def run(ctx: Ctx) -> Outcome:
 
     # (b) edit histories
     hist_models = hist_models_of(airds, ctx)
-    n_hist = ctx.pick(40, 400)
-    n_ops = ctx.pick(14, 22)
+    n_hist = ctx.pick(50, 1200)
+    n_ops = ctx.pick(18, 24)
     for hi in range(n_hist):
         rel = hist_models[hi % len(hist_models)]
         risky = 0.0 if hi % 3 else 0.25  # two thirds of the histories stay clear of the recorded findings
         h = History(env.model(rel), env.reqif)
         ops: list = []
         try:
-            for _ in range(n_ops):
+            done = 0
+            for _ in range(3 * n_ops):
+                if done >= n_ops:
+                    break
                 op = gen_op(ctx.rng, h, risky)
                 if not h.apply(op):
                     continue
                 ops.append(op)
+                if op[0] in _CREATES and op[0] not in ("add_req", "add_folder"):
+                    continue  # vocabulary only: the module (and its export) is unchanged
+                done += 1
                 found = evaluate(env, h.mod, {"kind": "history", "model": rel, "ops": list(ops)}, out, pending)
                 if any(s.startswith("to_reqif|crash") for s, _ in found):
                     break  # a crashing state hides everything after it
